@@ -1267,6 +1267,9 @@ func run(c *h.Check) {
 		}
 		c.Explore(scenario(s), bound, 400000, false)
 	}
+	for _, sc := range failingScenarios() {
+		c.Explore(sc, bound, 100000, false)
+	}
 }
 
 func replay(c *h.Check, rf *h.ReplayFile) []vrt.Violation {
@@ -1274,6 +1277,11 @@ func replay(c *h.Check, rf *h.ReplayFile) []vrt.Violation {
 		for _, s := range schedules(true) {
 			if s.name == rf.Scenario {
 				return h.ReplaySchedule(scenario(s), rf)
+			}
+		}
+		for _, sc := range failingScenarios() {
+			if sc.Name == rf.Scenario {
+				return h.ReplaySchedule(sc, rf)
 			}
 		}
 		vrt.MachineryFault("unknown scenario %q", rf.Scenario)
